@@ -177,6 +177,15 @@ Definition check_layout (t : ltree) (o : oresult) : bool :=
   | _, _ => false
   end.
 
+(** Suite [sequence]: several trees converted one after the other in one process; the model
+    is a pure function, so every conversion must agree with it whatever was converted before. *)
+Fixpoint check_layout_seq (ts : list ltree) (os : list oresult) : bool :=
+  match ts, os with
+  | [], [] => true
+  | t :: ts', o :: os' => check_layout t o && check_layout_seq ts' os'
+  | _, _ => false
+  end.
+
 (** What the model computes, in the same shape (for --replay). *)
 Definition show_layout (t : ltree) : (N * N * list ocell + N)%type :=
   match recipe_tree_to_table t with
